@@ -64,7 +64,7 @@ func mirrorIPFIXDispatcher(ch chan IPFIXUDPMsg) {
 
 func mirrorIPFIX(dst net.IP, port int, ch chan IPFIXUDPMsg) error {
 	var (
-		packet = make([]byte, opts.IPFIXUDPSize)
+		packet = make([]byte, opts.IPFIXUDPSize+mirror.IPv6HLen+mirror.UDPHLen)
 		msg    IPFIXUDPMsg
 		pLen   int
 		err    error
@@ -107,6 +107,11 @@ func mirrorIPFIX(dst net.IP, port int, ch chan IPFIXUDPMsg) error {
 		// IPv6 checksum mandatory
 		if !ipv4 {
 			udp.SetChecksum()
+		}
+
+		// room for the headers in front of the payload
+		if ipHLen+mirror.UDPHLen+pLen > len(packet) {
+			packet = make([]byte, ipHLen+mirror.UDPHLen+pLen)
 		}
 
 		copy(packet[0:ipHLen], ipHdr)
